@@ -394,6 +394,10 @@ def run(tier, replay=None):
                     report.violation({"kind": "counterexample", "what": "inbound messages were not handed to the application exactly once, one at a time, in arrival order",
                                       "after_reconnects": round_, "sent": msgs, "delivered": app, "overlapping_callbacks": overlaps, "dispatcher_threads": threads_now}, True, tag="order")
                     break
+                # the link is lost in the middle of a message (its length field, header or body cut), then re-established
+                partial = link.reply_frame(0x6000 + round_, 4000 + round_)
+                link.rig.conn.feed(partial[: (3, 7, 20, len(partial) - 1)[round_ % 4]])
+                link.rig.settle()
                 link.down()
                 link.up()
             cov["ordering"] = order_stats
